@@ -43,6 +43,22 @@ def ctor_param_attrs(prog: Program, kind: str) -> Dict[str, str]:
     return out
 
 
+def _reflective_clone(prog: Program, kind: str) -> bool:
+    for c in prog.mro(prog.cls(kind)):
+        m = c.methods.get("clone")
+        if m is None:
+            continue
+        for n in ast.walk(m.node):
+            if isinstance(n, ast.Call):
+                fn = n.func
+                name = fn.id if isinstance(fn, ast.Name) else (fn.attr if isinstance(fn, ast.Attribute) else "")
+                if name in ("setattr", "vars", "copy", "deepcopy", "update", "__setattr__"):
+                    return True
+            if isinstance(n, ast.Attribute) and n.attr == "__dict__":
+                return True
+    return False
+
+
 def attrs_read_elsewhere(prog: Program) -> Set[str]:
     out: Set[str] = set()
     for f in prog.all_functions():
@@ -71,6 +87,10 @@ def run_r1(chk: Check, prog: Program) -> None:
                 continue
             if a in table.get(k, set()):
                 chk.ok("C13.R1", key, construct, where=f"{prog.cls(k).module.relpath}:{k}.clone")
+            elif _reflective_clone(prog, k):
+                # the chain copies attributes through setattr / vars / copy: which ones is a question about values, decided
+                # by the interpreted clone() of R2, not by this table
+                chk.info("C13.R1", key, construct, "the clone() chain copies attributes reflectively: judged by C13.R2")
             else:
                 chk.fail("C13.R1", key, construct,
                          f"no clone() in the MRO of {k} assigns result.{a}: the clone gets the constructor default",
